@@ -338,15 +338,18 @@ func (in *interp) probe(p *Probe) *xm {
 			switch {
 			case !ok:
 				texts = append(texts, in.u.text)
+			case !isScalar(v.K):
+				panic("c04 generator: text read of non-scalar " + r.Path + " = " + v.String())
 			default:
 				texts = append(texts, v.S)
 			}
 		case "tern":
-			if in.holds(r.Cond) {
-				texts = append(texts, "Y")
-			} else if !ok {
+			switch {
+			case !ok:
 				texts = append(texts, in.u.tern)
-			} else {
+			case in.holds(r.Cond):
+				texts = append(texts, "Y")
+			default:
 				texts = append(texts, "N")
 			}
 		case "vif":
